@@ -5,6 +5,7 @@ package main
 // alphabet are evaluated. Each call runs under recover() and a watchdog.
 
 import (
+	"encoding/json"
 	"flag"
 	"fmt"
 	"math/rand"
@@ -212,6 +213,7 @@ func c04Total(args []string) error {
 	wd := fs.Duration("watchdog", 2*time.Second, "")
 	ntpl := fs.Int("templates", 3000, "")
 	only := fs.String("only", "", "only this function/operator (replay)")
+	tplFile := fs.String("tplfile", "", "evaluate the templates of this file (one JSON string per line; replay / confirmation)")
 	fs.Parse(args)
 	lw, f, err := newLineWriter(*out)
 	if err != nil {
@@ -386,6 +388,23 @@ func c04Total(args []string) error {
 				}
 			}
 		}
+	}
+	if *tplFile != "" && *shard == 0 {
+		ctx := types.NewXObject(map[string]types.XValue{"a": pool[28].v, "b": pool[31].v, "x": pool[4].v, "fields": pool[30].v})
+		forEachLine(*tplFile, 0, 1, func(i int, data []byte) error {
+			var tpl string
+			if json.Unmarshal(data, &tpl) != nil {
+				return nil
+			}
+			outcome, rk, detail := g.run(func() types.XValue {
+				s, _, _ := ev.Template(env, ctx, tpl, nil)
+				v, _, _ := ev.TemplateValue(env, ctx, tpl)
+				_ = s
+				return v
+			})
+			emit(&C04Line{Src: "template/" + tpl, Kind: "template", Fn: "template", Args: []string{tpl}, Outcome: outcome, RKind: rk, Detail: detail})
+			return nil
+		})
 	}
 	lw.w.Flush()
 	fmt.Println(string(mustJSON(M{"lines": lw.n, "evaluations": n, "functions": len(entries), "leaked_goroutines": g.leaked})))
